@@ -3,8 +3,10 @@ package main
 import (
 	"errors"
 	"fmt"
+	"io"
 	"runtime"
 	"strings"
+	"sync"
 	"time"
 
 	"github.com/flosch/pongo2/v6"
@@ -286,7 +288,158 @@ func c04Overlap(c *C) {
 	c.Nontrivial(fmt.Sprintf("overlap:%d:%d", depth, kind))
 }
 
+// c04ParkLoader: a memory loader in which ONE armed call of Abs or Get (for one name) waits until it is released.
+type c04ParkLoader struct {
+	files    map[string]string
+	mu       sync.Mutex
+	parkName string
+	parkIn   string // "abs" or "get"; "" = not armed
+	entered  chan struct{}
+	release  chan struct{}
+}
+
+func (l *c04ParkLoader) park(where, name string) {
+	l.mu.Lock()
+	hit := l.parkIn == where && l.parkName == name
+	if hit {
+		l.parkIn = ""
+	}
+	l.mu.Unlock()
+	if hit {
+		close(l.entered)
+		<-l.release
+	}
+}
+
+func (l *c04ParkLoader) Abs(base, name string) string {
+	l.park("abs", name)
+	return name
+}
+
+func (l *c04ParkLoader) Get(p string) (io.Reader, error) {
+	l.park("get", p)
+	s, ok := l.files[p]
+	if !ok {
+		return nil, fmt.Errorf("c04ParkLoader: no template %q", p)
+	}
+	return strings.NewReader(s), nil
+}
+
+// c04OverlapInLoader: one compiled template with computed-name includes; an execution is parked INSIDE the loader
+// (name resolution or fetch of its include) while another execution of the same template - with the same or another
+// name - runs to its end. Every execution renders the files its own names say, during the overlap and afterwards.
+func c04OverlapInLoader(c *C) {
+	r := c.R
+	l := &c04ParkLoader{files: map[string]string{
+		"/main.tpl": "<{% include nm %}|{% include nm2 if_exists %}|{% for x in both %}{% include x %}{% endfor %}>",
+		"/a.tpl":    "[A{{ s }}]", "/b.tpl": "[B{{ s }}]", "/c.tpl": "[C{{ s }}{% include \"/a.tpl\" %}]"}}
+	set := pongo2.NewSet("c04-park", l)
+	tpl, err := set.FromFile("/main.tpl")
+	if err != nil {
+		c.Fail("fresh-compile-failed", D{"error": err.Error()})
+		return
+	}
+	names := []string{"/a.tpl", "/b.tpl", "/c.tpl"}
+	body := func(n, s string) string {
+		switch n {
+		case "/a.tpl":
+			return "[A" + s + "]"
+		case "/b.tpl":
+			return "[B" + s + "]"
+		case "/c.tpl":
+			return "[C" + s + "[A" + s + "]]"
+		}
+		return ""
+	}
+	type job struct{ nm, nm2, s string }
+	mk := func(s string) job {
+		j := job{nm: r.Pick(names), nm2: r.Pick(append([]string{"/none.tpl"}, names...)), s: s}
+		return j
+	}
+	want := func(j job) string {
+		return "<" + body(j.nm, j.s) + "|" + body(j.nm2, j.s) + "|" + body(j.nm, j.s) + body(j.nm2, j.s) + ">"
+	}
+	ctxOf := func(j job) pongo2.Context {
+		both := []string{j.nm}
+		if j.nm2 != "/none.tpl" {
+			both = append(both, j.nm2)
+		}
+		return pongo2.Context{"nm": j.nm, "nm2": j.nm2, "s": j.s, "both": both}
+	}
+	var trace []string
+	run := func(j job, label string) bool {
+		out, xerr := c01Exec(tpl, ctxOf(j), r.Intn(4))
+		c.Eval(1)
+		trace = append(trace, fmt.Sprintf("%s: nm=%s nm2=%s -> %s %s", label, j.nm, j.nm2, q(out), errStr(xerr)))
+		if xerr != nil || out != want(j) {
+			c.Fail("history-dependent", D{"files": l.files, "history": trace, "output": q(out), "expected": q(want(j)), "error": errStr(xerr),
+				"why": "computed-name includes render the files their names say in THIS execution, whatever other executions of the compiled template resolved before or are resolving right now"})
+			return false
+		}
+		return true
+	}
+	for i := r.Intn(3); i > 0; i-- {
+		if !run(mk("w"), "warm-up") {
+			return
+		}
+	}
+	for round := 0; round < 3; round++ {
+		j1 := mk("1")
+		l.mu.Lock()
+		l.parkName, l.parkIn = j1.nm, r.Pick([]string{"abs", "get"})
+		where := l.parkIn
+		l.entered, l.release = make(chan struct{}), make(chan struct{})
+		l.mu.Unlock()
+		type res struct {
+			out string
+			err error
+		}
+		done := make(chan res, 1)
+		go func() {
+			out, xerr := tpl.Execute(ctxOf(j1))
+			done <- res{out, xerr}
+		}()
+		select {
+		case <-l.entered:
+		case rs := <-done: // (cannot happen: the include of j1.nm goes through Abs and Get)
+			c.Fail("history-dependent", D{"history": trace, "why": "the parked execution ended without reaching the loader", "output": q(rs.out), "error": errStr(rs.err)})
+			return
+		}
+		trace = append(trace, fmt.Sprintf("execution with nm=%s parked inside loader.%s", j1.nm, where))
+		for k := 1 + r.Intn(2); k > 0; k-- {
+			j2 := mk("2")
+			if r.Chance(40) {
+				j2.nm = j1.nm
+			}
+			if !run(j2, "while parked") {
+				close(l.release)
+				<-done
+				return
+			}
+		}
+		close(l.release)
+		rs := <-done
+		c.Eval(1)
+		trace = append(trace, fmt.Sprintf("parked execution released -> %s %s", q(rs.out), errStr(rs.err)))
+		if rs.err != nil || rs.out != want(j1) {
+			c.Fail("history-dependent", D{"files": l.files, "history": trace, "output": q(rs.out), "expected": q(want(j1)), "error": errStr(rs.err), "why": "the execution that was parked inside the loader"})
+			return
+		}
+		for k := r.Intn(3); k > 0; k-- {
+			if !run(mk("3"), "afterwards") {
+				return
+			}
+		}
+	}
+	c.Cover("overlapping_executions_parked_in_loader")
+	c.Nontrivial("parkloader:" + strings.Join(trace, ";"))
+}
+
 func c04Run(c *C) {
+	if c.Idx%40 == 31 {
+		c04OverlapInLoader(c)
+		return
+	}
 	if c.Idx%40 == 11 {
 		c04Overlap(c)
 		return
